@@ -20,11 +20,11 @@ claim('C01', 'interprocedural must-check / fail-closed gate analysis on SSA (edg
       'Static, all-paths: every non-skip success exit of (*verifier).Verify / VerifyBlob (found through the interfaces they implement) is reachable only through the passing edges of envelope parsing, '
       'signature verification, payload-type equality, payload decode, descriptor equality (OCI) or algorithm lookup + generator + digest/size/media-type equality (blob) and the required-metadata check; '
       'notation.Verify hands the verifier the required-metadata map, artifact reference and plugin configuration of its own caller (option forwarding at the API boundary: no common field of the two option structs is left at its zero value); failures stored in outcome.Error are sticky; integrity is enforce in every non-skip level literal and cannot be overridden; no map update, delete or clear on the verification call tree targets a map of the caller (the required metadata checked for one signature is what is checked for the next). This is a necessary structural condition of the property for every envelope, '
-      'descriptor, metadata map and level at once; it does not establish cryptographic validity (trusted: notation-core-go).', 'DESIGN.md 2/C01')
+      'descriptor, metadata map and level at once; the blob descriptor the comparison uses is made by a generator that digests the whole reader (C07 blob-descriptor/generator-body, re-decided under C01 keys); it does not establish cryptographic validity (trusted: notation-core-go).', 'DESIGN.md 2/C01')
 
 claim('C02', 'typestate + must-check gate analysis on SSA, finite decision table of the predicate, who-may-read inventories, constant-table order',
       'Static, all-paths: the critical-failure predicate is exactly Action==enforce && Error!=nil; every validation result appended to the outcome (and every later store to its Error) is gated by that predicate on all '
-      'paths to success; each result carries the action of its own type from the applicable level; overrides go into a fresh map behind the legality gates; a recorded failure is never erased (a validation result a function did not create is written only by a store of a provably non-nil error, never overwritten as a whole, and the list of results is only extended); every plugin situation (missing, too old, no capability, '
+      'paths to success; each result carries the action of its own type from the applicable level; the level stored into an outcome or returned is result 0 of GetVerificationLevel applied to the SignatureVerification of a statement that comes only from the document selection (no level looked up by statement name or fixed); overrides go into a fresh map behind the legality gates; a recorded failure is never erased (a validation result a function did not create is written only by a store of a provably non-nil error, never overwritten as a whole, and the list of results is only extended); every plugin situation (missing, too old, no capability, '
       'execution error, missing/failed verdict) is fail-closed; native identity/revocation checks are routed by capability and skip; critical extended attributes are accounted for when no plugin is named and when the '
       'plugin ran: the list the plugin must process leaves an attribute out only for being one of the two header constants, and a critical attribute whose key is not a string fails verification. The path "plugin named but not executed" is a known finding pinned by a stable test. Clause-wise structure implies the decision table and monotonicity; the table is not enumerated as values.', 'DESIGN.md 2/C02')
 
@@ -41,7 +41,7 @@ claim('C04', 'instruction whitelist + per-iteration must-check gates + argument 
 claim('C05', 'abstract interpretation over a finite domain with loop fixpoint (aggregator) + must-check gates + argument provenance',
       'Static: the aggregation function is interpreted abstractly (per-certificate result in {OK, NonRevokable, Unknown, Revoked, other}, two-point counter abstraction, ghost bits) to a fixpoint: in every reachable abstract state a Revoked '
       'certificate makes the aggregate Revoked and any non-OK certificate makes it non-OK; the loop is cut by equal lengths, visits all indices and indexes results and chain alike; both validator interfaces get the unsliced chain and the same '
-      'signing time (zero unless signing-authority); a validator error or any aggregate other than OK sets the result\'s Error; the constructor leaves a non-nil validator or client, every delegating constructor forwards the validator/client option of its caller unchanged, and a default validator is installed only where the caller supplied neither. Covers all result vectors as abstract states, not as enumerated values; OCSP/CRL are trusted.', 'DESIGN.md 2/C05')
+      'signing time (zero unless signing-authority); a validator error or any aggregate other than OK sets the result\'s Error; the native check runs iff the level does not skip revocation and no plugin declares the revocation capability (C02 routing/revocation, re-decided under C05 keys); the constructor leaves a non-nil validator or client, every delegating constructor forwards the validator/client option of its caller unchanged, and a default validator is installed only where the caller supplied neither. Covers all result vectors as abstract states, not as enumerated values; OCSP/CRL are trusted.', 'DESIGN.md 2/C05')
 
 claim('C06', 'must-check gate analysis with operand provenance + finite decision table by abstract interpretation (regime) on SSA',
       'Static, all-paths: the expiry result is error-free only through expiry.IsZero() or time.Now().Before(expiry); under signing-authority every certificate of the whole chain is inside its window at SignedAttributes.SigningTime; '
@@ -58,7 +58,7 @@ claim('C08', 'effect-site gates on the selection loop + finite decision table by
       'Static, all-paths: a statement becomes the exact candidate only under generic == membership of the repository path (text before the last @, validated) in its own registryScopes and the wildcard candidate only under membership of "*"; '
       'the loop has no early exit; precedence exact > wildcard > error is decided over candidate nil-ness by abstract interpretation; blob selection is by string equality of the name or by the global flag, global iff no name is given; '
       'every statement handed out is a clone and each clone shares no slice/map/pointer with the document, recursively through struct-valued fields; selection errors surface as ErrorNoApplicableTrustPolicy at the three call sites. '
-      'Uniqueness of scopes (needed for order independence) is C09.', 'DESIGN.md 2/C08')
+      'Uniqueness of scopes, the wildcard included (needed for order independence), is what validation guarantees: the scope obligations of C09 (every statement and scope visited and counted, unique, wildcard alone) are re-decided under C08 keys.', 'DESIGN.md 2/C08')
 
 claim('C09', 'rule-slot inventory of fail-closed gates (per-exit and per-iteration edge cuts) + sibling agreement + certified sanitizer by regexp/syntax walk + abstract interpretation of the global-statement loop',
       'Static, all-paths: for each of ~60 structural rules of a policy document a fail-closed gate exists in the validation call tree (document, statement core, level/override, store entry, identity incl. overlap over every ordered pair, DN, scope incl. counting every scope, scope format); '
@@ -92,7 +92,7 @@ claim('C13', 'must-check gates per exit and per completed loop iteration + certi
 claim('C14', 'typestate of the temp-file protocol + who-may-write inventory + parameter-use confinement + constant analysis (key / temp alphabets)',
       'Static: decides the structural preconditions under which POSIX rename makes an entry absent-or-complete — the entry is written only by a writer that creates a fresh file with os.CreateTemp in the cache root, writes the whole content, closes, '
       'then renames it over Join(root, key(url)), each step only after the previous succeeded, the destination path reaching nothing but Rename; the bytes handed to the writer belong to the call alone (never a view of a pooled or shared buffer); nothing else in verifier/crl mutates files; keys are the full hex SHA-256 of the URL and temp names contain a non-hex rune; '
-      'the reader performs exactly one whole-file read per Get. This is the clause the record\'s own mutation (in-place write) breaks. NOT decided: the interleavings and crash points themselves, which are reduced to the trusted atomicity of rename(2) within one directory; no durability claim.', 'DESIGN.md 2/C14',
+      'the reader performs exactly one whole-file read per Get; Set reports success only after the marshalled entry was written (C15 set/write-error and set/writes-marshalled-entry, re-decided under C14 keys: no read after a returned write sees an older bundle because the write was skipped). This is the clause the record\'s own mutation (in-place write) breaks. NOT decided: the interleavings and crash points themselves, which are reduced to the trusted atomicity of rename(2) within one directory; no durability claim.', 'DESIGN.md 2/C14',
       'The hook proposed in the property record (pausing WriteFile at step boundaries) belongs to a dynamic technique and is not used.')
 claim('C15', 'reader/writer field agreement + must-check gates (incl. disjunctive delta gates) + path provenance (URL confinement) on SSA',
       'Static, all-paths: Set stores bundle.X.Raw into entry field X and Get parses field X into bundle.X under distinct JSON names; Get succeeds only through read, decode, base parse, delta parse when stored, base expiry and delta expiry when present; '
